@@ -87,6 +87,10 @@ func c25Callers(thorough bool) []c25Caller {
 		{Name: "unregistered-prefix-of-registered-token", CN: "v1:2003:tok", Refused: true, Seed: "victim"},
 		{Name: "unregistered-extension-of-registered-token", CN: "v1:2004:tokWW", Refused: true, Seed: "victim"},
 		{Name: "unregistered-empty-token", CN: "v1:2005:", Refused: true, Seed: "victim"},
+		// v1 ids are chosen by the client: the id of a registered client with a token that was never registered
+		{Name: "unregistered-v1-with-id-of-registered-v1", CN: "v1:1001:tokV1", Refused: true, Seed: "victim"},
+		{Name: "unregistered-v1-with-id-of-registered-v2", CN: "v1:1002:tokV2", Refused: true, Seed: "victim"},
+		{Name: "unregistered-v2-with-id-of-registered-v1", CN: c25V2CN(1001, "key-of-V3"), Refused: true, Seed: "victim"},
 		{Name: "registered-v1", CN: "v1:1001:" + c25TokW, Seed: "victim"},
 		{Name: "registered-v2", CN: c25V2CN(1002, "key-of-W2"), Seed: "victim"},
 	}
@@ -140,32 +144,47 @@ func (p *c25CertProvider) GetCertificateWithContext(context.Context, *tls.Client
 }
 func (p *c25CertProvider) OnHandshake(cipher.OnHandshakeFunc) {}
 
+// c25Shared: what all server instances of one run share (certificates, proofs, keyless cert);
+// safe for concurrent use.
+type c25Shared struct {
+	mu      sync.Mutex
+	ca      *certAuthority
+	certs   map[string]*x509.Certificate
+	nConn   int
+	powKey  ed25519.PrivateKey
+	proofs  map[string]*protocol.ProofOfWork
+	proofAt map[string]time.Time
+	solves  int
+	keyless *tls.Certificate
+}
+
+func c25NewShared() *c25Shared {
+	sh := &c25Shared{ca: newCA(), certs: map[string]*x509.Certificate{}, proofs: map[string]*protocol.ProofOfWork{}, proofAt: map[string]time.Time{}}
+	_, sh.powKey, _ = ed25519.GenerateKey(rand.Reader)
+	// a certificate the keyless endpoints can serve / sign with
+	ek, _ := ecdsa.GenerateKey(elliptic.P256(), rand.Reader)
+	tpl := &x509.Certificate{SerialNumber: big.NewInt(7), Subject: pkix.Name{CommonName: "keyless"}, NotBefore: time.Now().Add(-time.Hour), NotAfter: time.Now().Add(24 * time.Hour)}
+	der, _ := x509.CreateCertificate(rand.Reader, tpl, tpl, &ek.PublicKey, ek)
+	sh.keyless = &tls.Certificate{Certificate: [][]byte{der}, PrivateKey: ek}
+	return sh
+}
+
+// c25World is ONE server instance (with its RPC stack) on one DHT.
 type c25World struct {
+	*c25Shared
 	ctx      context.Context
 	cancel   context.CancelFunc
 	kv       *recKV
 	f        *fixture
 	helper   *fixture
-	ca       *certAuthority
 	resolver *c25Resolver
-	certs    map[string]*x509.Certificate
-	nConn    int
-	powKey   ed25519.PrivateKey
-	proofs   map[string]*protocol.ProofOfWork
-	proofAt  map[string]time.Time
-	solves   int
 }
 
-func c25NewWorld() *c25World {
+func c25NewWorld(sh *c25Shared) *c25World {
 	ctx, cancel := context.WithCancel(context.Background())
-	w := &c25World{ctx: ctx, cancel: cancel, ca: newCA(), certs: map[string]*x509.Certificate{}, proofs: map[string]*protocol.ProofOfWork{}, proofAt: map[string]time.Time{}}
-	_, w.powKey, _ = ed25519.GenerateKey(rand.Reader)
+	w := &c25World{c25Shared: sh, ctx: ctx, cancel: cancel}
 	w.resolver = &c25Resolver{m: map[string]string{}}
-	// a certificate the keyless endpoints can serve / sign with
-	ek, _ := ecdsa.GenerateKey(elliptic.P256(), rand.Reader)
-	tpl := &x509.Certificate{SerialNumber: big.NewInt(7), Subject: pkix.Name{CommonName: "keyless"}, NotBefore: time.Now().Add(-time.Hour), NotAfter: time.Now().Add(24 * time.Hour)}
-	der, _ := x509.CreateCertificate(rand.Reader, tpl, tpl, &ek.PublicKey, ek)
-	kc := &tls.Certificate{Certificate: [][]byte{der}, PrivateKey: ek}
+	kc := sh.keyless
 
 	chordID, tunID := &protocol.Node{Id: 1, Address: "chordA:1"}, &protocol.Node{Id: 2, Address: "tunA:2"}
 	w.kv = newRecKV(chordID)
@@ -186,7 +205,9 @@ func (w *c25World) close() {
 	w.f.srv.Stop()
 }
 
-func (w *c25World) cert(cn string) *x509.Certificate {
+func (w *c25Shared) cert(cn string) *x509.Certificate {
+	w.mu.Lock()
+	defer w.mu.Unlock()
 	if c, ok := w.certs[cn]; ok {
 		return c
 	}
@@ -217,7 +238,7 @@ const (
 // reset rebuilds the DHT: destination records (real publishDestinations), the registered
 // clients, and - under the caller's token - a generated hostname with a published route, a bound
 // custom hostname, and a DNS record that would validate a second custom hostname.
-func (w *c25World) reset(caller c25Caller) {
+func (w *c25World) reset(callers ...c25Caller) {
 	ctx := context.Background()
 	w.kv.mem = memory.WithHashFn(chord.Hash)
 	w.kv.getHook = nil
@@ -246,7 +267,11 @@ func (w *c25World) reset(caller c25Caller) {
 	w.resolver.mu.Lock()
 	w.resolver.m = map[string]string{}
 	w.resolver.mu.Unlock()
-	if caller.Seed == "victim" {
+	getErr := map[string]bool{}
+	for _, caller := range callers {
+		if caller.Seed != "victim" {
+			continue
+		}
 		tok, id, ok := c25Token(caller.CN)
 		if !ok {
 			panic("seed needs a parsable cn")
@@ -265,19 +290,23 @@ func (w *c25World) reset(caller c25Caller) {
 		w.resolver.m[name] = content
 		w.resolver.mu.Unlock()
 		if caller.GetErr {
-			key := tun.ClientTokenKey(ct)
-			w.kv.getHook = func(k string) ([]byte, error, bool) {
-				if k == key {
-					return nil, fmt.Errorf("kv: injected failure"), true
-				}
-				return nil, nil, false
+			getErr[tun.ClientTokenKey(ct)] = true
+		}
+	}
+	if len(getErr) > 0 {
+		w.kv.getHook = func(k string) ([]byte, error, bool) {
+			if getErr[k] {
+				return nil, fmt.Errorf("kv: injected failure"), true
 			}
+			return nil, nil, false
 		}
 	}
 	w.kv.resetLog()
 }
 
-func (w *c25World) proof(host string) *protocol.ProofOfWork {
+func (w *c25Shared) proof(host string) *protocol.ProofOfWork {
+	w.mu.Lock()
+	defer w.mu.Unlock()
 	if p, ok := w.proofs[host]; ok && time.Since(w.proofAt[host]) < 4*time.Second {
 		return p
 	}
@@ -344,6 +373,11 @@ type c25Case struct {
 	Caller string `json:"caller"`
 	Method string `json:"method"` // Service/Name
 	Body   string `json:"body"`   // empty | valid | valid-json | garbage
+	// histories on one server instance and one DHT: Order "RC" = registered caller Reg calls
+	// RegMethod, then Caller calls Method; "CR" = the reverse; "CRC" = Caller, Reg, Caller again
+	Order     string `json:"order,omitempty"`
+	Reg       string `json:"reg,omitempty"`
+	RegMethod string `json:"reg_method,omitempty"`
 }
 
 type c25Obs struct {
@@ -357,6 +391,11 @@ type c25Obs struct {
 
 func (w *c25World) call(caller c25Caller, m c25Method, body string) c25Obs {
 	w.reset(caller)
+	return w.do(caller, m, body)
+}
+
+// do performs one call on the current DHT / server state and records what it changed.
+func (w *c25World) do(caller c25Caller, m c25Method, body string) c25Obs {
 	before := w.kv.snapshot()
 	var obs c25Obs
 	var msg proto.Message
@@ -399,13 +438,15 @@ func (w *c25World) call(caller c25Caller, m c25Method, body string) c25Obs {
 		default:
 			payload, _ = proto.Marshal(msg)
 		}
+		w.mu.Lock()
 		w.nConn++
+		n := w.nConn
+		w.mu.Unlock()
 		c1, c2 := bufconn.BufferedPipe(1 << 16)
 		var cert *x509.Certificate
 		if !caller.NoCert {
 			cert = w.cert(caller.CN)
 		}
-		n := w.nConn
 		w.f.tunT.accept <- &transport.StreamDelegate{
 			Conn:        &addrConn{Conn: c1, remote: &net.TCPAddr{IP: net.IPv4(10, byte(n>>16), byte(n>>8), byte(n)), Port: 40000}},
 			Certificate: cert,
@@ -473,7 +514,8 @@ func c25(c *report.Check) {
 	if c.Thorough() {
 		bodies = append(bodies, "valid-json")
 	}
-	w := c25NewWorld()
+	sh := c25NewShared()
+	w := c25NewWorld(sh)
 	defer w.close()
 	defer quietStderr()() // chi's Recoverer prints a stack trace per recovered panic (malformed subject ids)
 	sink := newViolSink(c)
@@ -527,6 +569,7 @@ func c25(c *report.Check) {
 			}
 		}
 	}
+	c25Histories(c, sh, sink)
 	// every non-exempt method must have been served at least once for a registered caller with the
 	// valid body, otherwise a refusal of the same body proves nothing about the authentication layer
 	var unserved []string
@@ -571,8 +614,14 @@ func c25Replay(c *report.Check, raw []byte) {
 		c.Internal("c25 replay: bad object")
 		return
 	}
-	w := c25NewWorld()
+	w := c25NewWorld(c25NewShared())
 	defer w.close()
+	if cs.Order != "" {
+		for _, p := range c25RunHistory(w, cs) {
+			c.Violation(c25HistSig(cs, p), p, cs)
+		}
+		return
+	}
 	for _, caller := range c25Callers(true) {
 		if caller.Name != cs.Caller {
 			continue
@@ -614,4 +663,147 @@ func quietStderr() func() {
 		syscall.Close(saved)
 		null.Close()
 	}
+}
+
+// ---------------------------------------------------------------------------
+// histories: several calls on ONE server instance and ONE DHT
+// ---------------------------------------------------------------------------
+
+func c25FindCaller(name string) (c25Caller, bool) {
+	for _, c := range c25Callers(true) {
+		if c.Name == name {
+			return c, true
+		}
+	}
+	return c25Caller{}, false
+}
+
+func c25FindMethod(name string) (c25Method, bool) {
+	for _, m := range c25Methods() {
+		if m.Service+"/"+m.Name == name {
+			return m, true
+		}
+	}
+	return c25Method{}, false
+}
+
+func c25HistSig(cs c25Case, problem string) string {
+	if i := strings.Index(problem, ":"); i > 0 {
+		problem = problem[:i]
+	}
+	return fmt.Sprintf("c25:history-%s:%s:%s:then:%s:%s:%s", cs.Order, cs.Reg, cs.RegMethod, cs.Caller, cs.Method, problem)
+}
+
+// c25RunHistory runs one history on the given (fresh) server instance; every call of the
+// refused-class caller is judged exactly like a single call.
+func c25RunHistory(w *c25World, cs c25Case) []string {
+	reg, ok1 := c25FindCaller(cs.Reg)
+	caller, ok2 := c25FindCaller(cs.Caller)
+	rm, ok3 := c25FindMethod(cs.RegMethod)
+	m, ok4 := c25FindMethod(cs.Method)
+	if !ok1 || !ok2 || !ok3 || !ok4 {
+		return []string{"internal:unknown caller or method in history"}
+	}
+	w.reset(caller, reg) // the registered caller's binding is seeded last, so its valid bodies are served
+	var problems []string
+	for i, who := range cs.Order {
+		if who == 'R' {
+			o := w.do(reg, rm, "valid")
+			if o.Internal != "" {
+				return []string{"internal:" + o.Internal}
+			}
+			continue
+		}
+		o := w.do(caller, m, cs.Body)
+		if o.Internal != "" {
+			return []string{"internal:" + o.Internal}
+		}
+		for _, p := range c25Judge(caller, m, o) {
+			problems = append(problems, fmt.Sprintf("%s:call-%d-of-%s(status=%d,code=%s,diff=%v)", p, i+1, cs.Order, o.Status, o.Code, o.SnapDiff))
+		}
+	}
+	return problems
+}
+
+// quick tier: methods of the refused-class caller in histories (a mutating tunnel method, the route
+// publisher, the ACME binder and one keyless method); thorough uses every non-exempt method
+var c25QuickSecond = map[string]bool{"GenerateHostname": true, "PublishTunnel": true, "AcmeValidate": true, "Sign": true}
+
+func c25HistoryCases(thorough bool) []c25Case {
+	regs := []string{"registered-v1"}
+	orders := []string{"RC"}
+	if thorough {
+		regs = []string{"registered-v1", "registered-v2", "registered-old-format"}
+		orders = []string{"RC", "CR", "CRC"}
+	}
+	var out []c25Case
+	methods := c25Methods()
+	for _, ord := range orders {
+		for _, r := range regs {
+			for _, rm := range methods {
+				for _, caller := range c25Callers(thorough) {
+					if !caller.Refused {
+						continue
+					}
+					for _, m := range methods {
+						if c25Exempt(m) || (!thorough && !c25QuickSecond[m.Name]) {
+							continue
+						}
+						out = append(out, c25Case{Order: ord, Reg: r, RegMethod: rm.Service + "/" + rm.Name, Caller: caller.Name, Method: m.Service + "/" + m.Name, Body: "valid"})
+					}
+				}
+			}
+		}
+	}
+	if !thorough {
+		// reverse order in quick: one registered method
+		for _, caller := range c25Callers(false) {
+			if !caller.Refused {
+				continue
+			}
+			for _, m := range methods {
+				if !c25Exempt(m) && c25QuickSecond[m.Name] {
+					out = append(out, c25Case{Order: "CRC", Reg: "registered-v1", RegMethod: "protocol.TunnelService/GenerateHostname", Caller: caller.Name, Method: m.Service + "/" + m.Name, Body: "valid"})
+				}
+			}
+		}
+	}
+	return out
+}
+
+// c25Histories runs all histories, each on its own fresh server instance, in parallel.
+func c25Histories(c *report.Check, sh *c25Shared, sink *violSink) {
+	cases := c25HistoryCases(c.Thorough())
+	// solve the proofs before fanning out
+	sh.proof(c25CustomV)
+	sh.proof(c25CustomV2)
+	res := make([][]string, len(cases))
+	const workers = 12
+	var wg sync.WaitGroup
+	for wi := 0; wi < workers; wi++ {
+		wi := wi
+		wg.Add(1)
+		go func() {
+			defer wg.Done()
+			for i := wi; i < len(cases); i += workers {
+				w := c25NewWorld(sh)
+				res[i] = c25RunHistory(w, cases[i])
+				w.close()
+			}
+		}()
+	}
+	wg.Wait()
+	violating := 0
+	for i, cs := range cases {
+		for _, p := range res[i] {
+			if strings.HasPrefix(p, "internal:") {
+				c.Internal(fmt.Sprintf("c25 history %+v: %s", cs, p))
+				continue
+			}
+			violating++
+			sink.add(c25HistSig(cs, p), fmt.Sprintf("history %s on one server instance: %s %s, refused-class caller %s %s: %s", cs.Order, cs.Reg, cs.RegMethod, cs.Caller, cs.Method, p), cs)
+		}
+	}
+	c.Set("histories", len(cases))
+	c.Set("history_rule", "on one fresh server instance and one DHT per history: RC = a registered caller calls each method (valid body), then each refused-class caller (including never-registered tokens carrying the client id of the registered caller) calls GenerateHostname / PublishTunnel / AcmeValidate / Sign (quick) or each non-exempt method (thorough); quick adds CRC with GenerateHostname in the middle, thorough adds CR and CRC for every method and three registered callers; every call of the refused-class caller is judged like a single call")
 }
